@@ -42,6 +42,7 @@ type ReaderSpec struct {
 	Seed     int64  `json:"seed"`
 	FailAt   int64  `json:"failAt"`   // byte offset at which the source fails (-1: never)
 	FailKind string `json:"failKind"` // eof | custom | partial | unexpected | temporary (error with Temporary() = true) | transient / temptransient (one failed Read, then the source recovers) | parttransient (one Read returns bytes AND an error, then the source recovers)
+	SeekAble bool   `json:"seekable"` // present the source as io.ReaderAt + io.Seeker too
 	DelayUs  int    `json:"delayUs"`  // random sleep (0..DelayUs) inside Read, after the bytes are taken
 	Splits   []int  `json:"splits"`   // policy "script": k-th Read returns Splits[k]/SplitC of a sample (TLC-simulated short reads)
 	SplitC   int    `json:"splitC"`
@@ -229,6 +230,80 @@ type obsReader struct {
 	shorts  int
 	inRead  int32
 	overlap bool
+}
+
+// obsSeekReader is the same source presented as a random-access one (io.ReaderAt + io.Seeker, as bytes.Reader and *os.File
+// are): a workflow is free to use those methods, but what it judges must still be the stream's bytes, and a stream that
+// ends early or fails must still be reported.
+type obsSeekReader struct {
+	*obsReader
+	pos int64
+}
+
+func (s *obsSeekReader) Read(p []byte) (int, error) {
+	n, err := s.obsReader.Read(p)
+	s.obsReader.mu.Lock()
+	s.pos = s.obsReader.off
+	s.obsReader.mu.Unlock()
+	return n, err
+}
+
+func (s *obsSeekReader) Seek(offset int64, whence int) (int64, error) {
+	r := s.obsReader
+	r.mu.Lock()
+	defer r.mu.Unlock()
+	switch whence {
+	case io.SeekStart:
+		r.off = offset
+	case io.SeekCurrent:
+		r.off += offset
+	case io.SeekEnd:
+		if r.sp.Len < 0 {
+			return 0, errors.New("verif: endless stream has no end to seek from")
+		}
+		r.off = r.sp.Len + offset
+	}
+	if r.off < 0 {
+		r.off = 0
+	}
+	return r.off, nil
+}
+
+func (s *obsSeekReader) ReadAt(p []byte, off int64) (int, error) {
+	r := s.obsReader
+	r.mu.Lock()
+	defer r.mu.Unlock()
+	r.reads++
+	n := len(p)
+	var err error
+	if off+int64(n) > r.maxReq {
+		r.maxReq = off + int64(n)
+	}
+	if r.sp.Len >= 0 && off+int64(n) > r.sp.Len {
+		n = int(r.sp.Len - off)
+		if n < 0 {
+			n = 0
+		}
+		err = io.EOF
+	}
+	if r.rs.FailAt >= 0 && off+int64(n) > r.rs.FailAt {
+		n = int(r.rs.FailAt - off)
+		if n < 0 {
+			n = 0
+		}
+		err = r.failErr()
+	}
+	if n > 0 {
+		fillStream(r.sp, off, p[:n])
+	}
+	if off+int64(n) > r.off {
+		r.off = off + int64(n) // consumption is counted as the furthest byte handed out
+	}
+	if err != nil {
+		r.failed = true
+		r.rec.add(Event{"ev": "read", "off": off, "req": len(p), "n": n, "err": true})
+	}
+	return n, err
 }
 
 func (r *obsReader) Read(p []byte) (int, error) {
@@ -716,7 +791,11 @@ func runWorkflowJob(j *WJob) map[string]interface{} {
 		if single {
 			r.ok, r.err = detect.SingleDetect(rd, j.NumByte)
 		} else {
-			r.ok, r.err = info.call(rd)
+			if j.Reader.SeekAble {
+				r.ok, r.err = info.call(&obsSeekReader{obsReader: rd})
+			} else {
+				r.ok, r.err = info.call(rd)
+			}
 		}
 	}()
 	to := time.Duration(j.TimeoutMs) * time.Millisecond
